@@ -27,6 +27,33 @@ pub struct Case {
     pub eval: Data,
     pub tol: f32,
     pub pred: Vec<Vec<f32>>,
+    /// optional history before the aggregations are compared: the property must hold in
+    /// whatever state earlier calls left the network
+    #[serde(default)]
+    pub pre: Option<Pre>,
+}
+
+#[derive(Serialize, Deserialize, Clone, Debug)]
+pub struct Pre {
+    pub train: Data,
+    pub val: Data,
+    pub batch: usize,
+    pub epochs: i32,
+    /// early-stopping tolerance (None = no validation data handed to learn)
+    pub tol: Option<i32>,
+}
+
+fn run_pre(net_cfg: &NetCfg, net: &mut neurons::network::Network, pre: &Pre) {
+    let xs = tensors(net_cfg, &pre.train.x);
+    let ys = targets(&pre.train.y);
+    let vx = tensors(net_cfg, &pre.val.x);
+    let vy = targets(&pre.val.y);
+    let xr: Vec<&tensor::Tensor> = xs.iter().collect();
+    let yr: Vec<&tensor::Tensor> = ys.iter().collect();
+    let vxr: Vec<&tensor::Tensor> = vx.iter().collect();
+    let vyr: Vec<&tensor::Tensor> = vy.iter().collect();
+    let validation = pre.tol.map(|t| (&vxr, &vyr, t));
+    let _ = net.learn(&xr, &yr, validation, pre.batch, pre.epochs, None);
 }
 
 struct Observed {
@@ -41,6 +68,10 @@ struct Observed {
 fn execute(case: &Case, ctx: &mut Ctx) -> Observed {
     ctx.op();
     let mut net = case.net.build();
+    if let Some(pre) = &case.pre {
+        ctx.op();
+        run_pre(&case.net, &mut net, pre);
+    }
     // sequential reference, on the calling thread
     let px = tensors(&case.net, &case.pred);
     let reference: Vec<Vec<u32>> = px.iter().map(|x| bits(&flat(&net.predict(x)))).collect();
@@ -145,6 +176,8 @@ impl Property for C12 {
             "accuracy_strictly_between_0_and_1",
             "mean_bitwise_equal",
             "split_depth_ge_3",
+            "after_training_history",
+            "after_training_with_dropout",
         ]
     }
 
@@ -162,9 +195,32 @@ impl Property for C12 {
         let m_pred = if rng.chance(0.8) { eval_size(rng) } else { 0 };
         let xs: Vec<Vec<f32>> = (0..m_eval).map(|_| gen_input(rng, &net)).collect();
         let pred: Vec<Vec<f32>> = (0..m_pred).map(|_| gen_input(rng, &net)).collect();
-        // predictions of the freshly built network decide where the targets go
+        // one case in three first trains the network (possibly stopping early), so the
+        // aggregations are compared in the state an earlier call left behind
+        let pre = if rng.chance(0.33) {
+            let n = rng.range(1, 6);
+            let train = gen_data(rng, &net, n);
+            let v = rng.range(1, 4);
+            let val = gen_data(rng, &net, v);
+            Some(Pre {
+                train,
+                val,
+                batch: rng.range(1, n + 1),
+                epochs: rng.range(1, 5) as i32,
+                tol: if rng.chance(0.7) { Some(rng.range(1, 3) as i32) } else { None },
+            })
+        } else {
+            None
+        };
+        // predictions of the network in that state decide where the targets go
         let (preds, _) = run_env(&Env::reference(clock), |_| {
-            let n = net.build();
+            let mut n = net.build();
+            if let Some(pre) = &pre {
+                run_pre(&net, &mut n, pre);
+                for l in n.layers.iter_mut() {
+                    neurons::verif::set_layer_training(l, false);
+                }
+            }
             tensors(&net, &xs).iter().map(|x| flat(&n.predict(x))).collect::<Vec<_>>()
         });
         let out = net.output_count().unwrap_or(1);
@@ -200,7 +256,7 @@ impl Property for C12 {
             };
             ys.push(y);
         }
-        Case { net, env, eval: Data { x: xs, y: ys }, tol, pred }
+        Case { net, env, eval: Data { x: xs, y: ys }, tol, pred, pre }
     }
 
     fn check(&self, case: &Case, stats: &mut Stats) -> Outcome {
@@ -215,6 +271,8 @@ impl Property for C12 {
         stats.probe("fraction_rule", !softmax && out_count > 1);
         stats.probe("accuracy_strictly_between_0_and_1", false);
         stats.probe("mean_bitwise_equal", false);
+        stats.probe("after_training_history", case.pre.is_some());
+        stats.probe("after_training_with_dropout", case.pre.is_some() && case.net.has_dropout());
         stats.probe(&format!("objective_{:?}", case.net.objective), true);
 
         let (obs, info) = run_env(&case.env, |ctx| execute(case, ctx));
@@ -229,7 +287,10 @@ impl Property for C12 {
             Err(e) => {
                 // Which step panicked? Re-run only the sequential part.
                 let (seq, _) = run_env(&Env::reference(case.env.clock), |_| {
-                    let net = case.net.build();
+                    let mut net = case.net.build();
+                    if let Some(pre) = &case.pre {
+                        run_pre(&case.net, &mut net, pre);
+                    }
                     for x in tensors(&case.net, &case.pred).iter().chain(tensors(&case.net, &case.eval.x).iter()) {
                         let _ = net.predict(x);
                     }
@@ -366,6 +427,18 @@ impl Property for C12 {
             c.env.lenient = true;
             c
         };
+        if case.pre.is_some() {
+            let mut c = lenient(case);
+            c.pre = None;
+            out.push(c);
+            let mut c = lenient(case);
+            if let Some(p) = c.pre.as_mut() {
+                if p.epochs > 1 {
+                    p.epochs -= 1;
+                    out.push(c);
+                }
+            }
+        }
         if !case.pred.is_empty() && !case.eval.x.is_empty() {
             let mut c = lenient(case);
             c.pred.clear();
@@ -432,6 +505,7 @@ impl Property for C12 {
             "tolerance": case.tol,
             "first_eval_input": case.eval.x.first(),
             "first_eval_target": case.eval.y.first(),
+            "pre_history": case.pre.as_ref().map(|p| json!({"train_samples": p.train.len(), "batch": p.batch, "epochs": p.epochs, "early_stop_tolerance": p.tol})),
             "env": case.env,
         })
     }
